@@ -58,7 +58,12 @@ class Creators:
       key = gfa_line.name
       if gfapy.is_placeholder(key):
         key = id(gfa_line)
-      elif isinstance(key, str) and key.isdigit():
+      elif not isinstance(key, str):
+        raise gfapy.TypeError(
+          "The identifier of a line must be a string\n"+
+          "Line: {}\n".format(str(gfa_line))+
+          "Identifier: {}".format(repr(key)))
+      elif key.isdigit():
         keynum = int(key)
         if keynum > self._max_int_name:
           self._max_int_name = keynum
